@@ -5655,14 +5655,11 @@ class PyCdlib:
 
         if udf_symlink_path is not None and udf_target is not None:
             # If we aren't making a Rock Ridge symlink at the same time, we need
-            # to add a new zero-byte file to the ISO.
+            # to add a new zero-byte file to the ISO.  The Joliet entry is
+            # added below, the same way as for a Rock Ridge symlink.
             if rr_path is None:
-                tmp_joliet_path = joliet_path
-                if tmp_joliet_path is None:
-                    tmp_joliet_path = ''
                 num_bytes_to_add += self._add_fp(None, 0, False, symlink_path,
-                                                 '', tmp_joliet_path, '', None,
-                                                 False)
+                                                 '', '', '', None, False)
 
             udf_symlink_path_bytes = utils.normpath(udf_symlink_path)
 
